@@ -2,7 +2,7 @@
 """Print the markdown table of kept seeded changes (for DESIGN.md section 11.5)."""
 import glob, json, os
 rows = []
-for d in sorted(glob.glob('/verif/seeded/*')):
+for d in sorted(glob.glob('/verif/seeded/C*')):
     m = json.load(open(f'{d}/meta.json'))
     sc = m['static_check']
     rows.append((os.path.basename(d), (m.get('title') or m.get('what_breaks') or '')[:110].replace('|', '/'), sc['initially'], sc['reported_by'].replace('|', '/')))
